@@ -629,7 +629,9 @@ func (db *DB) Transaction(fc func(tx *DB) error, opts ...*sql.TxOptions) (err er
 		// nested transaction
 		if !db.DisableNestedTransaction {
 			spID := new(maphash.Hash).Sum64()
-			err = db.SavePoint(fmt.Sprintf("sp%d", spID)).Error
+			// on a session copy: a failed SAVEPOINT must not leave its error on the
+			// enclosing transaction handle, which the caller keeps using
+			err = db.Session(&Session{}).SavePoint(fmt.Sprintf("sp%d", spID)).Error
 			if err != nil {
 				return
 			}
